@@ -681,6 +681,11 @@ func c19ExecConc(f []string) (string, []Fail) {
 			}
 		}
 	}
+	for _, env := range []string{"out of memory", "cannot allocate", "failed to create new OS thread", "newosproc", "pthread_create", "resource temporarily unavailable"} {
+		if strings.Contains(stderr.String(), env) {
+			why = "no output" // the machine, not the code
+		}
+	}
 	if why == "no output" { // killed from outside (memory pressure ...): no evidence against the code, run it here
 		stat("conc:child-killed")
 		return c19ExecConcHere(g, r, subs)
